@@ -89,7 +89,8 @@ def ref_merge(target: list[list[Any]], source: list[list[Any]], clauses: list[di
                                 row = None
                                 counts["deleted"] += 1
                             else:
-                                row = [t[0], s[1], s[2] if c.get("set_w") else t[2]]
+                                newv = (None if t[1] is None or s[1] is None else t[1] + s[1]) if c.get("set_sum") else s[1]
+                                row = [t[0], newv, s[2] if c.get("set_w") else t[2]]
                                 counts["updated"] += 1
                             break
                     break
@@ -142,7 +143,8 @@ def render_merge(rng: Any, m: dict[str, Any], hz: dict[str, bool]) -> str:
 
             cond = f" AND {rc(c['cond'])}"
         if c["kind"] == "update":
-            sets = f"V = {s}.V" + (f", W = {s}.FLAG" if c.get("set_w") else "")
+            # set_sum: the new value mixes the target's old value with the source's column of the same name
+            sets = (f"V = {talias}.V + {s}.V" if c.get("set_sum") else f"V = {s}.V") + (f", W = {s}.FLAG" if c.get("set_w") else "")
             parts.append(f"{_kw(rng, 'WHEN MATCHED', lo)}{cond} {_kw(rng, 'THEN UPDATE SET', lo)} {sets}")
         elif c["kind"] == "delete":
             parts.append(f"{_kw(rng, 'WHEN MATCHED', lo)}{cond} {_kw(rng, 'THEN', lo)} {_kw(rng, 'DELETE', lo)}")
@@ -189,7 +191,7 @@ def gen(rng: Any, prop: str, tier: str) -> dict[str, Any]:
         ops.append({"s": "s0", "k": "exec", "sql": f"INSERT INTO TGT VALUES {vals}", "tag": "setup", "tgt_rows": trows})
     n_merges = rng.choice([1, 1, 2, 3])
     for mi in range(n_merges):
-        sname = f"SRC{mi}"
+        sname = f"{rng.choice(['SRC', 'SRC', 'USRC'])}{mi}"  # a source whose name sorts before / after the target's
         srows: list[list[Any]] = []
         for k2 in rng.sample(keys, rng.randint(0, 6)):
             srows.append([k2, fresh(), rng.choice([0, 1, 1, 2])])
@@ -227,6 +229,7 @@ def gen(rng: Any, prop: str, tier: str) -> dict[str, Any]:
             c: dict[str, Any] = {"kind": kind, "cond": cond}
             if kind == "update":
                 c["set_w"] = rng.random() < 0.3 and not not_null_w
+                c["set_sum"] = rng.random() < 0.25
             if kind == "insert":
                 c["ins_w"] = rng.random() < 0.6 or not_null_w
             clauses.append(c)
@@ -434,7 +437,7 @@ def run(case: dict[str, Any]) -> dict[str, Any]:
                         if snap["rows"].get(name, []) != sorted(norm_rows(op["source_rows"]), key=sort_key):
                             violation = v_("source-changed", "MERGE leaves the source untouched", {"source": name, "expected": op["source_rows"], "observed": snap["rows"].get(name)})
                             break
-                extra = [t for t in snap["tables"] if t.split(".")[-1] not in ("TGT", "BYS") and not t.split(".")[-1].startswith("SRC")]
+                extra = [t for t in snap["tables"] if t.split(".")[-1] not in ("TGT", "BYS") and not t.split(".")[-1].startswith(("SRC", "USRC"))]
                 if violation is None and extra:
                     violation = v_("helper-listed", "a helper object is listed in the catalog", {"tables": extra})
         nontrivial = any(len(s[0]) >= 2 or any(s[1]) for s in shapes if s[4] and s[5])
